@@ -172,7 +172,7 @@ def seed():
 
 def write_replay(prop, name, obj):
     os.makedirs(REPLAYS, exist_ok=True)
-    p = os.path.join(REPLAYS, "%s-%s.json" % (prop, name))
+    p = os.path.join(REPLAYS, "%s-%s.json" % (prop, re.sub(r"[^A-Za-z0-9_.=,-]", "_", str(name))[:80]))
     with open(p, "w") as f:
         json.dump(obj, f, indent=1, default=str)
     return p
